@@ -4,6 +4,7 @@ package rigs
 
 import (
 	"bytes"
+	"context"
 	"fmt"
 	"net"
 	"net/http"
@@ -12,6 +13,7 @@ import (
 	"sort"
 	"strconv"
 	"strings"
+	"sync"
 	"sync/atomic"
 	"time"
 
@@ -174,6 +176,9 @@ type relayRig struct {
 	downRules   [][2]string
 	countFails  bool // one host with fail_timeout: what is counted as a backend failure (client aborts must not be)
 	uhosts      []*proxy.UpstreamHost
+	dialSeq     map[string]int
+	selSeq      map[string]int
+	seqMu       sync.Mutex
 	regexRules  bool // three-argument rules: header_downstream X-Dup (regexp -> replacement), header_upstream X-A
 	transparent bool
 	keepalive0  bool
@@ -195,6 +200,15 @@ type relayRig struct {
 }
 
 var relayCur *relayRig
+
+func (r *relayRig) nextSel(id string) int {
+	r.seqMu.Lock()
+	defer r.seqMu.Unlock()
+	r.selSeq[id]++
+	return r.selSeq[id]
+}
+
+type relayReqKey struct{}
 
 var hopNames = []string{"Connection", "Keep-Alive", "Proxy-Authenticate", "Proxy-Authorization", "Te", "Trailer", "Transfer-Encoding", "Upgrade", "Proxy-Connection"}
 
@@ -228,9 +242,23 @@ func setupRelayProxy(c *casket.Controller) error {
 			}
 			rig.uhosts = append(rig.uhosts, h)
 			tr.Proxy = nil
-			tr.DialContext = nil
+			tr.Dial = nil
 			rig.transports = append(rig.transports, tr)
-			tr.Dial = func(network, addr string) (net.Conn, error) {
+			tr.DialContext = func(ctx context.Context, network, addr string) (net.Conn, error) {
+				if rig.cleanup {
+					return nil, fmt.Errorf("sim: backend gone")
+				}
+				// one dial per step, in an order the controller chooses: connection numbers
+				// (and with them the event log) must not depend on which of two requests
+				// waking at the same instant gets to dial first
+				id, _ := ctx.Value(relayReqKey{}).(string)
+				rig.seqMu.Lock()
+				rig.dialSeq[id]++
+				n := rig.dialSeq[id]
+				rig.seqMu.Unlock()
+				if rig.c.ParkOr(fmt.Sprintf("hook.dial/r%s#%d", id, n), "proxy-dial:"+id, ctx.Done()) {
+					return nil, ctx.Err()
+				}
 				if rig.cleanup {
 					return nil, fmt.Errorf("sim: backend gone")
 				}
@@ -254,6 +282,7 @@ func setupRelayProxy(c *casket.Controller) error {
 		px := proxy.Proxy{Next: next, Upstreams: ups}
 		return httpserver.HandlerFunc(func(w http.ResponseWriter, req *http.Request) (int, error) {
 			m := &rwMonitor{ResponseWriterWrapper: &httpserver.ResponseWriterWrapper{ResponseWriter: w}, rig: rig, owner: goid(), id: req.Header.Get("X-Req")}
+			req = req.WithContext(context.WithValue(req.Context(), relayReqKey{}, req.Header.Get("X-Req")))
 			return px.ServeHTTP(m, req)
 		})
 	})
@@ -468,7 +497,7 @@ func runRelayMode(mode string) sim.RigFunc {
 }
 
 func runRelayIn(c *sim.Ctl, mode string) {
-	r := &relayRig{c: c, st: c.T.Stream("struct"), finish: make(chan struct{}), mode: mode, hosts: 1}
+	r := &relayRig{c: c, st: c.T.Stream("struct"), finish: make(chan struct{}), mode: mode, hosts: 1, dialSeq: map[string]int{}, selSeq: map[string]int{}}
 	relayCur = r
 	defer func() { relayCur = nil }()
 	r.w = NewWorld(c)
@@ -535,7 +564,7 @@ func runRelayIn(c *sim.Ctl, mode string) {
 		fmt.Fprintf(&b, "\tlimits {\n\t\tbody /api %d\n\t}\n", r.limit)
 	}
 	if r.hosts == 2 {
-		fmt.Fprintf(&b, "\tsimrelay /api http://10.7.0.1:80%s http://10.7.0.2:80%s {\n\t\tpolicy first\n\t\ttry_duration 2s\n\t\ttry_interval 7ms\n\t\tfail_timeout 10s\n", r.base, r.base)
+		fmt.Fprintf(&b, "\tsimrelay /api http://10.7.0.1:80%s http://10.7.0.2:80%s {\n\t\tpolicy simwrap_first\n\t\ttry_duration 2s\n\t\ttry_interval 7ms\n\t\tfail_timeout 10s\n", r.base, r.base)
 	} else {
 		fmt.Fprintf(&b, "\tsimrelay /api http://10.7.0.1:80%s {\n", r.base)
 		if r.countFails {
